@@ -578,11 +578,11 @@ def run():
                      'on which all readers are compared with the pair-list model; non-trivial = the state has a key '
                      'with several pairs or the operation changes the pair list',
                 bounds=dict(quick='3 classes; 34 readers + up to 20 ==/!= probes per state (incl. 3 copy forms, pickle protocols 0/1/2/5) on all '
-                                  'pair lists of length <= 3 over keys {a,b,c} x values {1,2} and of length <= 2 over keys {None,0,(1,2)} x '
+                                  'pair lists of length <= 4 over keys {a,b,c} x values {1,2} and of length <= 2 over keys {None,0,(1,2)} x '
                                   'values {None,"v",[0]}; 16 constructor forms; histories: every one of 98 operation instances (all public '
                                   'mutators x argument forms dict / OMD / list / one-shot iterator / kwargs / the OMD itself, copies) from '
                                   'every distinct concrete state reached within 2 steps of the empty OMD (all histories <= 3) and within 1 '
-                                  'step of 4 seed states with repeated keys (<= 2); QueryParamDict <= 2 / <= 2',
+                                  'step of 4 seed states (3 with repeated keys, sizes 3-6) (<= 2)',
                             thorough='pair lists <= 5 (exotic <= 3); histories <= 4 from empty and <= 3 from the seeds (QueryParamDict 3 / 2); '
                                      'plus 300 seeded random histories of length 30 per class over an alphabet that adds None/0/tuple keys '
                                      'and None/unhashable values'))
@@ -595,12 +595,12 @@ def run():
         if C is None:
             H.fail(RD, cn, 'class missing', cn, 'class not importable', None)
             continue
-        skip = readers_part(H, agg, cn, C, imp, 'abc', (1, 2), 5 if H.thorough else 3, 'readers')
+        skip = readers_part(H, agg, cn, C, imp, 'abc', (1, 2), 5 if H.thorough else 4, 'readers')
         skip |= readers_part(H, agg, cn, C, imp, (None, 0, (1, 2)), (None, 'v', [0]), 3 if H.thorough else 2, 'exotic')
         if only in (None, 'ctor'):
             ctor_part(H, agg, cn, C, imp, skip)
         if only in (None, 'hist'):
-            d0, d1 = ((4, 3) if ci < 2 else (3, 2)) if H.thorough else ((3, 2) if ci < 2 else (2, 2))
+            d0, d1 = ((4, 3) if ci < 2 else (3, 2)) if H.thorough else (3, 2)
             seen = {}
             H.parts['%s: new states per depth from empty' % cn] = explore(H, agg, cn, C, imp, ops, seeds[:1], d0, skip, seen)
             H.parts['%s: new states per depth from seeds' % cn] = explore(H, agg, cn, C, imp, ops, seeds[1:], d1, skip, seen)
